@@ -278,6 +278,9 @@ def wrapAngle2Pi(angle: float) -> float:
     # Fmod takes sign of dividend (first arg)
     if (angle := fmod(angle, const.TWOPI)) < 0:
         angle += const.TWOPI
+        # A tiny negative angle plus a whole turn rounds to exactly 2*pi: that is the angle 0
+        if angle >= const.TWOPI:
+            angle = 0.0
     return angle
 
 
@@ -400,7 +403,9 @@ def angularMean(
         cos_mean = cos_angles.sum()
 
     # Determine the arctangent of the sine & cosine means, then rescale to [0, 2π]
-    result_mean = wrapAngle2Pi(arctan2(sin_mean, cos_mean))
+    # [NOTE]: closed interval on purpose - a mean a hair below a whole turn is reported as `high`
+    if (result_mean := arctan2(sin_mean, cos_mean)) < 0:
+        result_mean += const.TWOPI
     # Rescale using the low, high values.
     return result_mean * (high - low) / const.TWOPI + low
 
@@ -511,7 +516,9 @@ def vecWrapAngleNeg(angles: ndarray) -> ndarray:
 
 def vecWrapAngle2Pi(angles: ndarray) -> ndarray:
     r"""Force angle into range of :math:`[0, 2\pi)`."""
-    return np.asarray(angles) % const.TWOPI
+    wrapped = np.asarray(angles) % const.TWOPI
+    # A tiny negative angle wraps to exactly 2*pi after rounding: that is the angle 0
+    return np.where(wrapped >= const.TWOPI, 0.0, wrapped)
 
 
 def vecResiduals(vec1: ndarray, vec2: ndarray, angular: ndarray) -> ndarray:
